@@ -148,14 +148,14 @@ Section Trie.
   Definition t_is_empty (t : trie) : bool :=
     negb (is_some (t_kv t)) && negb (is_some (t_wild t)) && is_nil (t_regexps t) && is_nil (t_children t).
 
-  Inductive ires := IOk | IExisting | IFailed | IPanic.
+  Inductive ires := IOk | IExisting | IFailed.
   Definition ires_ok (r : ires) : bool := match r with IOk => true | _ => false end.
 
-  (** [insert_recursive].  [IPanic] = the [assert_ne!(partial_key, b"")]. *)
+  (** [insert_recursive]; an empty [partial_key] (empty label) is [Failed]. *)
   Fixpoint insert_w (t : trie) (steps : list kstep) (key : bytes) (v : V) : trie * ires :=
     let '(Node kv w ch rx) := t in
     match steps with
-    | [] => (t, IPanic)
+    | [] => (t, IFailed)
     | KBad :: _ => (t, IFailed)
     | KStar :: _ =>
       if is_some (aget [STAR] ch) then (t, IExisting)
@@ -188,13 +188,13 @@ Section Trie.
       end
     end.
 
-  (** [TrieNode::insert]: the early [Failed] returns, then the recursion whose
-      [Failed] result trips [assert_ne!(insert_result, Failed)]. *)
+  (** [TrieNode::insert]: the early [Failed] returns, then the recursion; a
+      [Failed] recursion has not touched the trie. *)
   Definition insert (t : trie) (key : bytes) (v : V) : trie * ires :=
     if is_nil key then (t, IFailed)
     else if beq key [DOT] then (t, IFailed)
     else match insert_w t (ksteps key) key v with
-         | (t', IFailed) => (t, IPanic)
+         | (t', IFailed) => (t, IFailed)
          | r => r
          end.
 
